@@ -114,11 +114,11 @@ func init() {
 		lo, hi := sext(args[2].(*Term).V, 64), sext(args[3].(*Term).V, 64)
 		m := e.fresh(tag, "u64", 64)
 		e.assume(And(Cmp(OpSLe, BV(64, uint64(lo)), m), Cmp(OpSLe, m, BV(64, uint64(hi)))), "dyadic range")
-		nb := bitlenI(lo)
-		if b := bitlenI(hi); b > nb {
-			nb = b
+		mg := absI(lo)
+		if b := absI(hi); b > mg {
+			mg = b
 		}
-		return mkDyad(m, -frac, nb)
+		return mkDyad(m, -frac, mg)
 	}
 	verifAPI["verifChoose"] = func(e *Exec, args []Value, st string) Value {
 		tag, n := argStr(args[0]), argInt(args[1])
